@@ -92,6 +92,16 @@ class AstToDjangoQVisitor(visitor.NodeVisitor):
 
         return res
 
+    def generic_visit(self, node: ast._Node) -> Any:
+        """
+        Reached for node types this visitor has no translation for (e.g. geography
+        literals outside of geo functions). Refuse them instead of silently
+        translating them to ``None``.
+
+        :meta private:
+        """
+        raise ex.TypeException(self.__class__.__name__, node.__class__.__name__)
+
     def visit_Identifier(self, node: ast.Identifier) -> F:
         ":meta private:"
         return F(node.name)
@@ -495,6 +505,10 @@ class AstToDjangoQVisitor(visitor.NodeVisitor):
         """
         if isinstance(node, (Q, Exists)):
             return node
+
+        # A bare field or value is not a condition Django can filter on:
+        if isinstance(node, (F, Value)):
+            raise ex.TypeException("filter", str(node))
 
         if not DJANGO_LT_4:
             return Q(node)
